@@ -317,7 +317,11 @@ def find_irrelevant_type(etype: tp.Type, types: List[tp.Type],
 
     if isinstance(etype, tp.TypeParameter):
         if etype.bound is None or etype.bound == factory.get_any_type():
-            return choose_type(types, only_regular=True)
+            # Every type except for the top type is irrelevant to an
+            # unbounded type variable.
+            return choose_type(
+                [t for t in types if t != factory.get_any_type()],
+                only_regular=True)
         else:
             etype = etype.bound
 
